@@ -7,7 +7,7 @@ import z3
 
 from .. import reportlib as rl
 from ..checklib import main
-from ..engine import Str
+from ..engine import Str, Unsupported
 from ..native import hexs, unhex
 
 HEADINGS = {'High': '## High Risk\n', 'Medium': '## Medium Risk\n', 'Low': '## Low Risk\n'}
@@ -51,8 +51,15 @@ def setup(engine, cat):
 def check_shapes(chk, item, which='C11'):
     cat, shapes = item
     e = chk.engine()
-    sections, overview = setup(e, cat)
     headings = HEADINGS if cat == 'vul' else None
+    try:
+        sections, overview = setup(e, cat)
+    except Unsupported as u:
+        # the section / overview functions are no longer constant texts around a decimal total: nothing can be decided symbolically;
+        # the compiled generators are still held against the oracle on concrete findings (DESIGN 4.4)
+        chk.undecide('%s report: %s' % (cat, u))
+        native_only(chk, cat, shapes, headings)
+        return
     jobs, meta = [], []
     for shape in shapes:
         f = rl.Findings(cat, shape)
@@ -96,8 +103,59 @@ def check_shapes(chk, item, which='C11'):
         if nat[0] != 'OK' or unhex(nat[1]) != pred:
             chk.broken('%s report %r: engine predicts a different text than the real generator\npredicted: %r\nreal: %r' % (
                 cat, shape, pred[:300], unhex(nat[1])[:300] if nat[0] == 'OK' else nat))
+    if shapes and shapes[0] == shapes_for(chk, cat)[0]:
+        big_totals(chk, cat, sections, overview, headings)          # once per category
     if meta:
         chk.sample({'category': cat, 'shape': meta[0][0], 'report (first 300 chars)': meta[0][1][:300]})
+
+
+def native_texts(chk, cat):
+    """sections and overview of a category taken from the compiled code (runner jobs), for the native-only fall-back"""
+    table = rl.CATS[cat]['table']
+    res = chk.native.run([['section', cat, n] for _, n in table] + [['report', cat, '']])
+    sections = {v: unhex(r[1]) for (v, n), r in zip(table, res) if r[0] == 'OK'}
+    empty = unhex(res[-1][1]) if res[-1][0] == 'OK' else ''
+    m = re.match(r'^(.*?)(\d[\d,]*)(.*)$', empty, re.S)
+    overview = (m.group(1), m.group(3)) if (m and cat != 'qa') else (empty.rstrip('\n'), None)
+    return sections, overview
+
+
+def native_only(chk, cat, shapes, headings):
+    sections, overview = native_texts(chk, cat)
+    for shape in shapes[:12]:
+        f = rl.Findings(cat, shape)
+        native_samples(chk, cat, f, sections, overview, headings)
+    big_totals(chk, cat, sections, overview, headings)
+
+
+def big_totals(chk, cat, sections, overview, headings):
+    """totals with several digits groups (999 .. 12345 entries) and file names with multi-byte characters, on the compiled generators"""
+    table = rl.CATS[cat]['table']
+    v0, n0 = table[0]
+    for total in (999, 1000, 1005, 1042, 1100, 12345):
+        lines = list(range(1, total + 1))
+        conc = [(v0, [('Big.sol', lines)])]
+        spec = '%s|%s|%s' % (n0, hexs('Big.sol'), ','.join(map(str, lines)))
+        nat = chk.native.run([['report', cat, spec]])[0]
+        chk.states += 1
+        text = unhex(nat[1]) if nat[0] == 'OK' else None
+        cok, cwhy = concrete_accept(text, cat, conc, sections, overview, headings) if text is not None else (False, 'panic: %s' % nat[1:])
+        if not cok:
+            chk.violation('%s:report:%s' % (cat, role_of(cwhy)), '%s report for %d findings of %s in one file: %s' % (cat, total, v0, cwhy),
+                          {'job': 'report', 'category': cat, 'findings': spec[:200] + '...', 'why': cwhy}); break
+        chk.ok()
+    for name in ('Tökén.sol', '合约合.sol', 'ſ.sol', 'a b:c.sol', 'x'):
+        conc = [(v0, [(name, [5, 17])])]
+        spec = '%s|%s|5,17' % (n0, hexs(name))
+        nat = chk.native.run([['report', cat, spec]])[0]
+        chk.states += 1
+        text = unhex(nat[1]) if nat[0] == 'OK' else None
+        cok, cwhy = concrete_accept(text, cat, conc, sections, overview, headings) if text is not None else (False, 'panic: %s' % nat[1:])
+        if not cok:
+            chk.violation('%s:report:%s' % (cat, role_of(cwhy)), '%s report for findings %r: %s' % (cat, conc, cwhy),
+                          {'job': 'report', 'category': cat, 'findings': spec, 'observed': text, 'why': cwhy})
+        else:
+            chk.ok()
 
 
 def native_samples(chk, cat, f, sections, overview, headings):
@@ -178,7 +236,12 @@ def full_report(chk):
     """generate_report: a category part is present iff the category has findings; exactly one write to solstat_report.md"""
     e = chk.engine()
     f = e.func('generate_report')
-    secs = {c: setup(e, c) for c in rl.CATS}
+    try:
+        secs = {c: setup(e, c) for c in rl.CATS}
+    except Unsupported as u:
+        chk.undecide('generate_report: %s' % u)
+        native_full_sequences(chk)
+        return
     # per category: no entry at all / findings / only file entries with empty line sets (= no findings)
     for mask3 in itertools.product((False, True, 'empty'), repeat=3):
         fs = {}
